@@ -120,7 +120,8 @@ class Property(Entity):
         if not util.is_uuid(oid):
             oid = util.create_id()
 
-        h5dataset.set_attr("entity_id", oid)
+        # is_uuid looks at str(oid): that text is what gets stored
+        h5dataset.set_attr("entity_id", str(oid))
 
         newentity = cls(nixfile, nixparent, h5dataset)
         newentity.force_created_at()
